@@ -54,9 +54,9 @@ func init() {
 				ts = tally.VerifNewTestScope("", nil, 1)
 				scope = ts
 			}
-			// duration histogram whose bucket upper bounds are 0..40 clock units: the bucket identifies the elapsed time exactly
+			// duration histogram whose bucket upper bounds are -30..40 clock units: the bucket identifies the elapsed time exactly
 			var hb tally.DurationBuckets
-			for i := 0; i <= 40; i++ {
+			for i := -30; i <= 40; i++ { // negative: the clock may be stepped back between Start and Stop
 				hb = append(hb, time.Duration(i)*unit)
 			}
 			timer := scope.Timer("t")
@@ -135,6 +135,9 @@ func init() {
 				switch k := rng.Intn(5); {
 				case k == 0:
 					d := int64(1 + rng.Intn(3))
+					if rng.Intn(5) == 0 {
+						d = -int64(1 + rng.Intn(2)) // the clock is stepped back: elapsed times may be negative
+					}
 					clk += d
 					tr.Emit(M{"e": "tick", "d": d})
 					desc += "T"
